@@ -225,8 +225,9 @@ func (h *Handler) ServeDNS(
 
 		var netErr net.Error
 		// Network error means that something is wrong with the upstream, we
-		// definitely should use the fallback.
-		useFallbacks = err != nil && errors.As(err, &netErr)
+		// definitely should use the fallback.  A connection closed by the
+		// upstream is a network error as well.
+		useFallbacks = err != nil && (errors.As(err, &netErr) || errors.Is(err, io.EOF))
 	}
 
 	if useFallbacks && len(h.fallbacks) > 0 {
